@@ -115,7 +115,8 @@ func runC03(c *ctx) {
 		}
 	}
 	for _, p := range []string{"[1..5]", "[5..1]", "[3..3]", "[-2..2]", "[0..9999999]~>$count", "[1..10000000]~>$count",
-		"[0..10000000]", "[1..10000001]", "[1.5..3]", "[1..2.5]", "[1..1e300]", "[-1e300..1]", `["a".."b"]`, "[nothing..3]", "[1..nothing]", "[1..3, 7..9]", "[n4..n5]", "[n5..n4]"} {
+		"[0..10000000]", "[1..10000001]", "1 in [1..20000000]", "\"5\" in [1..20000000]", "nothing in [0..10000000]", "7 in [0..9]", "11 in [0..9]",
+		"n4 in [n4..n5]", "[1..10000001] = 1", "$exists([1..10000001])", "1 in [0, 1..20000000]", "[0..10000000][0]", "1.5 in [1.5..3]", "[1.5..3]", "[1..2.5]", "[1..1e300]", "[-1e300..1]", `["a".."b"]`, "[nothing..3]", "[1..nothing]", "[1..3, 7..9]", "[n4..n5]", "[n5..n4]"} {
 		c.diffEval(p, input, "range/limits")
 	}
 
